@@ -1,6 +1,8 @@
 package main
 
 import (
+	"sync"
+	"sort"
 	"fmt"
 	"strings"
 
@@ -60,6 +62,46 @@ func runLB(ops []string) (out []string) {
 			var n uint64
 			fmt.Sscan(arg, &n)
 			proxycore.VerifSetLBIndex(lb, n)
+		case "C":
+			// g goroutines create k plans each, at the same time, and take the first host of each
+			var g, k int
+			fmt.Sscanf(strings.ReplaceAll(arg, ",", " "), "%d %d", &g, &k)
+			counts := map[string]int{}
+			var cmu sync.Mutex
+			var wg sync.WaitGroup
+			start := make(chan struct{})
+			for i := 0; i < g; i++ {
+				wg.Add(1)
+				go func() {
+					defer wg.Done()
+					local := map[string]int{}
+					<-start
+					for j := 0; j < k; j++ {
+						if h := lb.NewQueryPlan().Next(); h != nil {
+							local[h.Key()]++
+						} else {
+							local["-"]++
+						}
+					}
+					cmu.Lock()
+					for kk, v := range local {
+						counts[kk] += v
+					}
+					cmu.Unlock()
+				}()
+			}
+			close(start)
+			wg.Wait()
+			var keys []string
+			for kk := range counts {
+				keys = append(keys, kk)
+			}
+			sort.Strings(keys)
+			var parts []string
+			for _, kk := range keys {
+				parts = append(parts, fmt.Sprintf("%s=%d", kk, counts[kk]))
+			}
+			out = append(out, "c:"+strings.Join(parts, ","))
 		case "N":
 			var i int
 			fmt.Sscan(arg, &i)
@@ -138,6 +180,15 @@ func genLB(e *emitter, r *rng.R, n int, tier string) {
 		{"B:h0,h1,h2", "S:18446744073709551615", "P", "N:0", "N:0", "N:0", "N:0", "P", "N:1"},
 		{"B:h0,h1,h2", "P", "P", "P", "P", "N:0", "N:1", "N:2", "N:3"},
 		{"B:h0,h1,h2,h3", "P", "R:h1", "N:0", "N:0", "N:0", "N:0", "N:0", "P", "N:1", "N:1", "N:1", "N:1"},
+	}
+	// plans created by many goroutines at once (every request creates one): the counter must hand each its own offset
+	for _, c := range [][]string{
+		{"B:h0,h1,h2", "C:8,3000", "P", "N:0"},
+		{"B:h0,h1,h2,h3,h4", "P", "C:16,2000", "R:h1", "C:12,1500", "P", "N:1", "N:1"},
+		{"B:h0,h1", "S:18446744073709551000", "C:8,1000", "P", "N:0", "N:0"},
+		{"B:h0,h1,h2,h3,h4,h5,h6", "C:16,4001", "A:h7", "C:5,777"},
+	} {
+		corpus = append(corpus, c)
 	}
 	for _, ops := range corpus {
 		e.emit(strings.Join(ops, " "))
